@@ -163,3 +163,34 @@ func VP_C19_lines() {
 		vpAssert(!skip && !wellFormed, "well-formed-lines-are-accepted")
 	}
 }
+
+//vp:property C19
+//vp:set loopmax 200000 200000
+//vp:set maxsteps 6000000 12000000
+//vp:bounds connection files larger than the line scanner's 4096-byte buffer: three settings, the first with a filler value of 4070..4100 'x' bytes (so that each of the following lines in turn straddles offset 4096), the others with one symbolic clean-ASCII byte each; Marshal then Unmarshal
+//vp:reach roundtrip
+func VP_C19_roundtrip_large() {
+	fill := vpIntRange("filler", 4070, 4100)
+	b := make([]byte, fill)
+	for i := range b {
+		b[i] = 'x'
+	}
+	v1, v2 := vpStringN("v1", 1), vpStringN("v2", 1)
+	vpAssume(vpAnd(vpCleanASCII(v1), vpCleanASCII(v2)))
+	m := map[string]interface{}{"a": string(b), "bbbbbbbbbb": v1, "cccccccccc": v2}
+	p := Parser()
+	text, err := p.Marshal(m)
+	vpAssert(err == nil && len(text) > 4096, "marshal-succeeds")
+	back, err := p.Unmarshal(text)
+	vpReach("roundtrip")
+	vpAssert(err == nil, "a-generated-file-larger-than-the-scan-buffer-is-accepted")
+	if err != nil {
+		return
+	}
+	vpAssert(len(back) == 3, "every-setting-restored-once")
+	s0, ok0 := back["a"].(string)
+	s1, ok1 := back["bbbbbbbbbb"].(string)
+	s2, ok2 := back["cccccccccc"].(string)
+	vpAssert(ok0 && len(s0) == fill, "long-setting-restored")
+	vpAssert(ok1 && s1 == v1 && ok2 && s2 == v2, "settings-after-the-buffer-boundary-restored")
+}
